@@ -2,7 +2,7 @@ import sys,glob
 sys.path.insert(0,'/verif/rules')
 from facts import Facts
 from enumtab import *
-f=Facts(sorted(glob.glob('/verif/.cache/facts/default-*'))[-1])
+import os; f=Facts(max(glob.glob('/verif/.cache/facts/default-*'),key=os.path.getmtime))
 J='datafusion_common::join_type::JoinType'
 def tab(fn, doms, **kw):
     t=table(f,fn,doms,**kw)
